@@ -97,6 +97,14 @@ def assigned_attrs(node: ast.AST) -> Iterator[tuple[ast.Attribute, ast.AST | Non
     for n in walk_no_nested(node):
         if isinstance(n, ast.Assign):
             for t in n.targets:
+                if isinstance(t, (ast.Tuple, ast.List)) and isinstance(n.value, (ast.Tuple, ast.List)) and len(t.elts) == len(n.value.elts) \
+                        and not any(isinstance(e, ast.Starred) for e in t.elts):
+                    # `a.x, b.y = 1, None`: each target with its own value
+                    for te, ve in zip(t.elts, n.value.elts):
+                        for tt in _flatten_targets(te):
+                            if isinstance(tt, ast.Attribute):
+                                yield tt, ve, n
+                    continue
                 for tt in _flatten_targets(t):
                     if isinstance(tt, ast.Attribute):
                         yield tt, n.value, n
